@@ -99,3 +99,19 @@ fn iso_diagnostics_to_params<TCompilationProfile: CompilationProfile>(
         paths,
     )
 }
+
+#[cfg(feature = "isographlabs_isograph_verif")]
+pub mod verif_hook {
+    //! Verification hooks: the diagnostics-to-notification conversion.
+    use super::*;
+
+    pub fn iso_diagnostics_to_params<TCompilationProfile: CompilationProfile>(
+        db: &IsographDatabase<TCompilationProfile>,
+        diagnostics: &[Diagnostic],
+        old_uris_with_diagnostics: BTreeSet<Uri>,
+    ) -> (Vec<PublishDiagnosticsParams>, BTreeSet<Uri>) {
+        let (params, uris) =
+            super::iso_diagnostics_to_params(db, diagnostics, old_uris_with_diagnostics);
+        (params.collect(), uris)
+    }
+}
